@@ -1250,7 +1250,9 @@ class Interp:
 
     def _call(self, fn, args, kwargs):
         if isinstance(fn, PyFunc):
-            ov = self.call_overrides.get(fn.qualname)
+            ov = self.call_overrides.get("%s:%s" % (getattr(fn.module, "name", None), fn.qualname))
+            if ov is None:
+                ov = self.call_overrides.get(fn.qualname)
             if ov is not None:
                 return ov(self.ctx, self, args, kwargs)
             return self.call_pyfunc(fn, args, kwargs)
